@@ -97,6 +97,14 @@ impl StreamContext {
         info!("finished execution");
     }
 
+    /// Build the execution graph this host would run, without running it.
+    #[cfg(feature = "verif")]
+    pub fn verif_execution_graph(self) -> crate::verif::GraphDump {
+        let mut env = self.inner.lock();
+        let scheduler = env.scheduler.take().unwrap();
+        scheduler.verif_graph()
+    }
+
     /// Get the total number of processing cores in the cluster.
     pub fn parallelism(&self) -> CoordUInt {
         match &self.inner.lock().config {
